@@ -88,6 +88,14 @@ CHECKS["C11"] = dict(
          "lexer/regex behaviour).",
     design="DESIGN.md §6 C11")
 
+CHECKS["C12"] = dict(
+    technique="action-AST evaluation to counter polynomials on both sides of the assembler/loader interface (paired through the loader's LR tables), bit-domain lanes, overflow-site classification, CFG dominance rule for DS := 0",
+    text="Decides per directive form: assembler counter increment == loader counter increment == bytes stored (as polynomials in the directive's numbers "
+         "and string length); labels bound to the counter before the increment; dw lanes; u16 counter / loop-bound overflow sites (DEFINITE = a segment "
+         "beyond 64 KiB aborts or wraps instead of being diagnosed); DS := 0 dominates the first executed instruction; OFFSET returns the bound value. Does "
+         "NOT decide the whole memory image over directive sequences (composition argued) nor 'zero elsewhere'.",
+    design="DESIGN.md §6 C12")
+
 NOT_YET = {}
 
 
